@@ -289,7 +289,7 @@ Proof.
     destruct oi as [i|]; [|apply miss_safeX; exact Hget].
     destruct (nth_error sorted (Z.to_nat i)) as [r|]; [|constructor].
     constructor. intros e He. destruct e as [stored|]; [apply hit_safeX; [exact Hget|apply He; reflexivity]|apply miss_safeX; exact Hget].
-  - unfold handle_unrecognized_method. apply SX_Origin. intros [|r]; [constructor; left; reflexivity|].
+  - unfold handle_unrecognized_method. destruct (req_only_if_cached _); [constructor; left; reflexivity|]. apply SX_Origin. intros [|r]; [constructor; left; reflexivity|].
     assert (Hby : forall c, SafeX GX (Lrt GX q t0) true c (Ret (OResp (with_hdr r (apply_status BYPASS (p_hdr r)))))).
     { intros c. constructor. right. left. eexists r, BYPASS. split; [right; reflexivity|reflexivity]. }
     destruct (_ && _); [|apply Hby].
